@@ -141,13 +141,18 @@ def getattr (C : Cls) (W : World V) (s : State V) (f : Field) : Option V :=
       | none => compute C W s f
   else fieldGet W s f
 
+/-- the early return of `__coerce_property__`, schema.py:226-235: some dependency is neither under the
+keys nor (for a no_output dependency) in `__dict__` -/
+def blocked (C : Cls) (s : State V) (p : Field) : Bool :=
+  !(p.deps.all s.data.has) &&                                     -- :226
+    p.deps.any (fun d => !s.data.has d && (match getField C d with      -- :229-235
+      | none => true
+      | some df => !s.attrs.has df.attname))
+
 /-- `Schema.__coerce_property__`, schema.py:222-264 -/
 def coerce (C : Cls) (W : World V) (s : State V) (p : Field) : State V :=
   if p.noOutput then s                                            -- :223
-  else if !(p.deps.all s.data.has) &&                             -- :226
-      p.deps.any (fun d => !s.data.has d && (match getField C d with    -- :229-235
-        | none => true
-        | some df => !s.attrs.has df.attname)) then s
+  else if blocked C s p then s
   else match compute C W s p with
     | none => s                                                   -- :236-243 getter failed: warn, keep
     | some v => { s with data := s.data.set p.name v }            -- :252-253
